@@ -8,6 +8,12 @@ namespace DustVerif.Xcdr
 def primOk (p : Prim) (n : Nat) : Bool :=
   n < 256 ^ p.size && (p != .bool || n ≤ 1) && (p != .c8 || n < 128)
 
+/-- a UTF-16 code unit -/
+def unitOk (v : Val) : Bool :=
+  match v with
+  | .num n => primOk .u16 n
+  | _ => false
+
 /-- `deserialize_enum_type` accepts INT8/INT16/INT32 holders only (deserializer.rs:996) -/
 def holderOk (h : Prim) : Bool := h == .i8 || h == .i16 || h == .i32
 
@@ -22,12 +28,14 @@ mutual
   def sizePos (ver : Ver) : Ty → Bool
     | .prim _ => true
     | .str => true
-    | .enum _ _ => true
+    | .enum _ _ _ => true
+    | .wstr => true
     | .seq _ => true
     | .arr el n => decide (0 < n) && sizePos ver el
     | .struct .mutable _ => true
     | .struct .appendable ms => ver == .v2 || firstPos ver ms
     | .struct .final ms => firstPos ver ms
+    | .union _ _ => true
   def firstPos (ver : Ver) : Ms → Bool
     | .nil => false
     | .cons _ opt _ t _ => opt || sizePos ver t
@@ -42,11 +50,19 @@ mutual
   def maxSize : Ty → Val → Nat
     | .prim _, _ => 16
     | .str, .str bs => 16 + bs.length
-    | .enum _ _, _ => 16
+    | .enum _ _ _, _ => 16
+    | .wstr, .list us => 40 + 15 * us.length
     | .seq el, .list vs => 24 + sumNat (vs.map (maxSize el))
     | .arr el _, .list vs => 8 + sumNat (vs.map (maxSize el))
     | .struct _ ms, .struct fs => 24 + maxSizeMs ms fs
+    | .union _ bs, .struct fs =>
+      match fs with
+      | [.num _, .num id, v] => 16 + maxSizeB bs id v
+      | _ => 16
     | _, _ => 0
+  def maxSizeB : Bs → Nat → Val → Nat
+    | .cons id' _ _ t r, id, v => if id' == id then maxSize t v else maxSizeB r id v
+    | .nil, _, _ => 0
   def maxSizeMs : Ms → List Val → Nat
     | .cons _ _ _ t rest, f :: fs => 16 + maxSize t f + maxSizeMs rest fs
     | _, _ => 0
@@ -67,7 +83,9 @@ mutual
   def wfVal (cfg : Cfg) (ver : Ver) : Ty → Val → Bool
     | .prim p, .num n => primOk p n
     | .str, .str bs => utf8Valid bs
-    | .enum h ls, .num n =>
+    | .wstr, .list us =>
+      us.all unitOk && utf16Valid (us.map Val.unit)
+    | .enum h ls _, .num n =>
       holderOk h && decide (n < 256 ^ h.size) && (ls.isEmpty || ls.contains (signed (8 * h.size) n))
     | .seq el, .list vs =>
       el.elemOk && sizePos ver el && decide (vs.length * 48 ≤ ALLOC_LIMIT) && vs.all (wfVal cfg ver el)
@@ -82,7 +100,18 @@ mutual
        | .v1 => cfg.d45 && cfg.d61 && decide (0 < ms.length)
        | .v2 => cfg.d47) &&
       decide (ms.lowIds.Nodup) && wfM cfg ver ms fs
+    -- unions: a discriminator of a kind the decoder accepts, the branch the writer set is the one the discriminator
+    -- selects (D80: a discriminator that selects nothing is outside)
+    | .union disc bs, .struct fs =>
+      match fs with
+      | [.num d, .num id, v] =>
+        primOk disc d && discOk disc && (bs.firstIdx id).isSome && bs.selIdx (discI32 disc d) == bs.firstIdx id &&
+        wfB cfg ver bs id v
+      | _ => false
     | _, _ => false
+  def wfB (cfg : Cfg) (ver : Ver) : Bs → Nat → Val → Bool
+    | .cons id' _ _ t r, id, v => if id' == id then wfVal cfg ver t v else wfB cfg ver r id v
+    | .nil, _, _ => false
   /-- members of a mutable structure.
       XCDR1: any member may be absent; a present member has an id below 2^14 (D68) other than 1 (D67) and a
       non-empty encoding (D69) of less than 2^16 bytes (D68).
@@ -119,7 +148,11 @@ mutual
     | .arr el _ => noMutable el
     | .struct .mutable _ => false
     | .struct _ ms => noMutableMs ms
+    | .union _ bs => noMutableB bs
     | _ => true
+  def noMutableB : Bs → Bool
+    | .nil => true
+    | .cons _ _ _ t r => noMutable t && noMutableB r
   def noMutableMs : Ms → Bool
     | .nil => true
     | .cons _ _ _ t r => noMutable t && noMutableMs r
@@ -132,7 +165,11 @@ mutual
     | .seq el => shortIds ver el
     | .arr el _ => shortIds ver el
     | .struct x ms => shortIdsMs ver (x == .mutable) ms
+    | .union _ bs => shortIdsB ver bs
     | _ => true
+  def shortIdsB (ver : Ver) : Bs → Bool
+    | .nil => true
+    | .cons _ _ _ t r => shortIds ver t && shortIdsB ver r
   def shortIdsMs (ver : Ver) (mt : Bool) : Ms → Bool
     | .nil => true
     | .cons id opt _ t r =>
